@@ -136,6 +136,13 @@ class State:
         return s
 
 
+def input_rooted(t):
+    """t is (a projection of) a function parameter"""
+    while t[0] in ("field", "proj", "tproj", "index", "sproj", "smid"):
+        t = t[1]
+    return t[0] == "param"
+
+
 def root_of(t):
     """the opaque Result/Option term whose Ok-ness decides the Ok-ness of t, with the ctor mapping t-ctor -> root-ctor"""
     mapping = None
@@ -320,7 +327,9 @@ class Sym:
 
     # ------------------------------------------------------------------ smart constructors
     def proj(self, t, ctor, i):
-        if t[0] == "ctor" and t[1] == ctor and i < len(t[2]):
+        if t[0] == "copy":
+            return self.proj(t[1], ctor, i)
+        if t[0] == "ctor" and t[1] == ctor and isinstance(i, int) and i < len(t[2]):
             return t[2][i]
         if t[0] == "struct" and t[1] == ctor:
             for n, v in t[2]:
@@ -359,6 +368,10 @@ class Sym:
         return ("tproj", t, i)
 
     def field(self, t, name):
+        if t[0] == "copy":
+            return self.field(t[1], name)
+        if t[0] == "upd":
+            return t[3] if t[2] == name else self.field(t[1], name)
         if t[0] == "struct":
             for n, v in t[2]:
                 if n == name:
@@ -899,6 +912,41 @@ class Sym:
             self.add_effect(st, "assign", "<assign>", [place, v], n, None)
         if lid is not None and n["l"].get("k") == "path":
             st.env[(fid, lid)] = v if st.loop_depth == 0 else self.fresh("assigned-in-loop")
+        elif tgt.get("k") == "field":
+            # x.f.g = v : the local x now holds an updated value (only for values this function owns a copy of)
+            chain = []
+            b = tgt
+            while b.get("k") == "field":
+                chain.append(b["name"])
+                b = H.strip(b["base"])
+            if b.get("k") == "path" and b["res"].get("rk") == "Local":
+                key = (fid, b["res"]["id"])
+                old = st.env.get(key)
+                if old is not None and (old[0] in ("copy", "upd", "struct", "ctor", "mutated") or input_rooted(old)):
+                    st.env[key] = self.update(old, list(reversed(chain)), v if v is not None else self.fresh("assigned"))
+
+    def update(self, t, chain, v):
+        if len(chain) == 1:
+            return ("upd", t, chain[0], v)
+        return ("upd", t, chain[0], self.update(self.field(t, chain[0]), chain[1:], v))
+
+    def mark_mutated(self, n, st):
+        """locals handed out by `&mut` (explicitly or as an auto-referenced receiver) hold an unknown value afterwards, when
+        they are owned copies of input data; fresh containers and parameters keep their identity (rules track them by effects)"""
+        fid = self.frame_id(st)
+        cands = []
+        for a in ([n["recv"]] if n.get("k") == "mcall" else []) + list(n.get("args", [])):
+            x = a
+            if x.get("k") == "addrof" and x.get("mut"):
+                x = H.strip(x["e"])
+                if x.get("k") == "path" and x["res"].get("rk") == "Local":
+                    cands.append(x["res"]["id"])
+            elif x.get("k") == "path" and x["res"].get("rk") == "Local" and (x.get("ty_adj") or "").startswith("&mut") and not (x.get("ty") or "").startswith("&"):
+                cands.append(x["res"]["id"])
+        for lid in cands:
+            old = st.env.get((fid, lid))
+            if old is not None and old[0] in ("copy", "upd", "mutated"):
+                st.env[(fid, lid)] = ("mutated", old, self.site(n, st))
 
     def add_effect(self, st, kind, callee, args, node, term):
         self.seq += 1
@@ -952,6 +1000,7 @@ class Sym:
 
     def do_call(self, n, callee, trait_callee, args, st):
         site = self.site(n, st)
+        self.mark_mutated(n, st)
         for c in (trait_callee, callee):
             if c in TESTS and args:
                 # a test used as a value: decided when known, otherwise opaque boolean
@@ -1160,6 +1209,8 @@ class Sym:
                         s.env[(fid, p["id"])] = t
                     out.append((s, ok))
                 return out
+            if "Mut)" in (p.get("mode") or "") and not (p.get("ty") or "").startswith("&") and input_rooted(t):
+                t = ("copy", t, (fid, p["id"]))     # an owned, mutable copy of input data: a different object from now on
             st.env[(fid, p["id"])] = t
             return [(st, True)]
         if k in ("ref", "deref"):
@@ -1374,6 +1425,12 @@ def show(t, depth=0):
         return show(t[1], d) + "[" + str(t[2]) + "]"
     if k == "smid":
         return show(t[1], d) + "[%d..-%d]" % (t[2], t[3])
+    if k == "copy":
+        return "copy(" + show(t[1], d) + ")"
+    if k == "upd":
+        return show(t[1], d) + "{" + str(t[2]) + " := " + show(t[3], d) + "}"
+    if k == "mutated":
+        return "mutated(" + show(t[1], d) + ")"
     if k == "conv":
         return "from(" + show(t[1], d) + ")"
     if k == "closure":
@@ -1427,6 +1484,8 @@ def children_of(t):
         return [t[1]] + list(t[2])
     if k == "closure":
         return list(t[2])
+    if k == "copy":
+        return [t[1]]
     return [x for x in t[1:] if isinstance(x, tuple) and x and isinstance(x[0], str)]
 
 
